@@ -110,6 +110,23 @@ def gen_excl_script(rng):
     return {'cfg': {'cpn': cpn, 'gpn': 0, 'lfs': 0, 'mem': 0, 'scattered': True}, 'nodes': nodes, 'iters': iters}
 
 
+def gen_rpn_restart_script(rng):
+    """property-directed (C02, ranks_per_node in the continuous, non-scattered search): full-node tasks occupy the first nodes,
+    all but the first complete; a task with a ranks_per_node limit then collects ranks from the last nodes, hits the
+    occupied node for its last ranks, and has to start over behind it: no node may get more ranks than the limit"""
+    cpn = rng.choice([4, 8])
+    nn  = rng.choice([5, 6, 6, 7])
+    nodes = [{'index': i, 'cores': [0] * cpn, 'gpus': [], 'lfs': 0, 'mem': 0} for i in range(nn)]
+    E = lambda inc=None, un=None: {'incoming': inc or [], 'marks': [], 'envs': [], 'unsched': un or []}
+    nfill = nn - 1
+    fillers = [_req(k, 1, cpn) for k in range(nfill)]
+    rpn  = rng.choice([1, 2, 2, 3])
+    full = rng.choice([1, 2, 2])                       # nodes that deliver `rpn` ranks before the occupied one is met
+    late = _req(50, rpn * full + rng.randint(1, rpn), 1, rpn=rpn)
+    iters = [E([{'sched': fillers}]), E(None, [list(range(1, nfill))]), E(), E([{'sched': [late]}]), E(), E()]
+    return {'cfg': {'cpn': cpn, 'gpn': 0, 'lfs': 0, 'mem': 0, 'scattered': False}, 'nodes': nodes, 'iters': iters}
+
+
 def gen_colo_script(rng):
     """property-directed (C02, colocate): a continuous (non-scattered) pilot with some nodes full; a tagged task of several
     ranks is placed - possibly after its walk found ranks on a node, met a full node and started over - and then a second
@@ -154,14 +171,18 @@ def run(ctx, prop):
         scripts.append(schedlib.keep_valid_releases(rp, gen_alone_script(rng)))
     for i in range(ctx.n(20, 400)):
         scripts.append(schedlib.keep_valid_releases(rp, gen_excl_script(rng)))
+    for i in range(ctx.n(24, 400)):
+        scripts.append(schedlib.keep_valid_releases(rp, gen_rpn_restart_script(rng)))
     for i in range(ctx.n(2, 40)):
         # large pilots: more than 512 releases reach the scheduler within one drain of the unschedule queue
         scripts.append(schedlib.fill_releases(rp, schedlib.gen_big_script(rng)))
     ops, impl = [], []
     dist = {'scripts': 0, 'iterations': 0, 'started': 0, 'failed': 0, 'canceled': 0, 'waited': 0, 'released': 0, 'crash': 0, 'with_app_slots': 0}
-    for sc in scripts:
+    for k, sc in enumerate(scripts):
         for it in sc['iters']:
             if it['unsched'] == 'auto': it['unsched'] = []
+        # every other script: completed tasks come back in the wire format of the message layer (plain dictionaries)
+        sc['wire'] = (k % 2 == 1)
         s, out, tasks, crash = schedlib.run_script(rp, sc)
         ops.append(schedlib.model_op(sc))
         impl.append(schedlib.canon_impl(out, crash))
